@@ -136,7 +136,7 @@ class C06(Prop):
 
     def parts(self):
         return [
-            EnumStrings('enum-5sym', 'a *_.', {'quick': 8, 'thorough': 10}),
+            EnumStrings('enum-5sym', 'a *_.', {'quick': 8, 'thorough': 11}),
             EnumStrings('enum-star', 'a*', {'quick': 14, 'thorough': 17}),
             EnumStrings('enum-underscore', 'a_', {'quick': 14, 'thorough': 17}),
             EnumStrings('enum-star-underscore', 'a*_', {'quick': 10, 'thorough': 13}),
